@@ -43,6 +43,22 @@ impl<V> BTreeMap<u64, V> {
         ensures r is Some <==> old(self)@.contains_key(*k), r is Some ==> r->Some_0 == old(self)@[*k], final(self)@ == old(self)@.remove(*k)
     { unimplemented!() }
     #[verifier::external_body]
+    pub fn pop_last(&mut self) -> (r: Option<(u64, V)>)
+        ensures r is None <==> old(self)@.dom().len() == 0, r is None ==> final(self)@ == old(self)@,
+            r is Some ==> old(self)@.contains_key(r->Some_0.0) && r->Some_0.1 == old(self)@[r->Some_0.0] && final(self)@ == old(self)@.remove(r->Some_0.0)
+                && (forall|k: u64| old(self)@.contains_key(k) ==> k <= r->Some_0.0)
+    { unimplemented!() }
+    #[verifier::external_body]
+    pub fn pop_first(&mut self) -> (r: Option<(u64, V)>)
+        ensures r is None <==> old(self)@.dom().len() == 0, r is None ==> final(self)@ == old(self)@,
+            r is Some ==> old(self)@.contains_key(r->Some_0.0) && r->Some_0.1 == old(self)@[r->Some_0.0] && final(self)@ == old(self)@.remove(r->Some_0.0)
+                && (forall|k: u64| old(self)@.contains_key(k) ==> k >= r->Some_0.0)
+    { unimplemented!() }
+    #[verifier::external_body]
+    pub fn contains_key(&self, k: &u64) -> (r: bool) ensures r == self@.contains_key(*k) { unimplemented!() }
+    #[verifier::external_body]
+    pub fn get(&self, k: &u64) -> (r: Option<&V>) ensures r is Some <==> self@.contains_key(*k), r is Some ==> *r->Some_0 == self@[*k] { unimplemented!() }
+    #[verifier::external_body]
     pub fn insert(&mut self, k: u64, v: V) -> (r: Option<V>)
         ensures final(self)@ == old(self)@.insert(k, v)
     { unimplemented!() }
